@@ -105,6 +105,14 @@ def schedules(steps, max_abandon, max_crash):
         shutil.rmtree(tmp, ignore_errors=True)
 
 
+def safe_run(case):
+    """solo.run_case on the in-process library; a call that raises is an observation ('raised:<type>'), not a harness failure."""
+    try:
+        return solo.run_case(qa, case)
+    except Exception as ex:  # noqa: BLE001
+        return ["raised:" + type(ex).__name__]
+
+
 def replay_schedule(cases, sched):
     """Step real generators as the schedule says; returns per stream (digests seen, exact?)."""
     gens, scorers, got, state = [], [], [], []
@@ -123,6 +131,10 @@ def replay_schedule(cases, sched):
             try:
                 got[k].append(solo.cand_digest(qa, next(gens[k])))
             except StopIteration:
+                state[k] = "done"
+            except Exception as ex:  # noqa: BLE001
+                # the real stream raised while another stream was open: that IS an observation (it differs from the solo run)
+                got[k].append("raised:" + type(ex).__name__)
                 state[k] = "done"
         elif act == "abandon":
             gens[k].close()
@@ -200,7 +212,7 @@ def run(ctx):
             # first only cut-short calls (a clean call in between would repair a half-filled memo), one clean call at
             # the end; on every second text clean calls are interleaved as well
             if T == pts[-1] or (tpool.index(c) % 2 == 1 and (T % 5 == 0 or T <= 12)):
-                got.append(solo.run_case(qa, c))
+                got.append(safe_run(c))
                 sl.append(ref[pool.index(c)])
                 ex.append(1)
         obs.append({"kind": "timeout-history", "got": got, "solo": sl, "exact": ex, "snap0": s0, "snap1": solo.snapshot(qa),
@@ -256,7 +268,7 @@ def run(ctx):
                 except Boom:
                     pass
             a0 = args_digest(c)
-            got.append(solo.run_case(qa, c))
+            got.append(safe_run(c))
             if a0 != args_digest(c):
                 got[-1] = ["args-changed"]
             sl.append(ref[i])
@@ -273,7 +285,7 @@ def run(ctx):
         if len(d) == 2:
             s0 = solo.snapshot(qa)
             seq = [d["shipped"], d["other"], d["shipped"], d["other"]]
-            got = [solo.run_case(qa, pool[i]) for i in seq]
+            got = [safe_run(pool[i]) for i in seq]
             obs.append({"kind": "history", "got": got, "solo": [ref[i] for i in seq], "exact": [1] * 4, "snap0": s0, "snap1": solo.snapshot(qa),
                         "args0": "a", "args1": "a", "_what": {"history": ["%s under %s" % (t, pool[i]["scorer"]) for i in seq]}})
             nh += 1
@@ -288,7 +300,7 @@ def run(ctx):
             order = [[rnd.randrange(len(pool)) for _ in range(6 if ctx.quick else 12)] for _ in range(8)]
 
             def work(tid):
-                results[tid] = [solo.run_case(qa, pool[i]) for i in order[tid]]
+                results[tid] = [safe_run(pool[i]) for i in order[tid]]
             ths = [threading.Thread(target=work, args=(t,)) for t in range(8)]
             for t in ths:
                 t.start()
